@@ -48,8 +48,26 @@ def seq(r):
     return " ; ".join(ops)
 
 
+def directed():
+    """Several writers for one (task, partition) created before any commits: exactly one commit wins, the others are refused
+    and must leave the committed entry (bytes, size, record count) as it is."""
+    out = []
+    for order in ((0, 1), (1, 0)):
+        for c0, c1 in ((3, 7), (0, 5), (4, 0)):
+            for tail in ("stat a 0 ; open a 0 0", "open a 0 1 ; stat a 0", "stat a 0 ; discard a 0 ; stat a 0 ; create a 0 ; write 2 zz ; commit 2 9 ; stat a 0"):
+                cs = {0: c0, 1: c1}
+                out.append("create a 0 ; create a 0 ; write 0 hello ; write 1 xy ; commit %d %d ; commit %d %d ; %s"
+                           % (order[0], cs[order[0]], order[1], cs[order[1]], tail))
+    out.append("create a 0 ; create a 0 ; create a 0 ; write 0 a ; write 1 bb ; write 2 ccc ; commit 1 2 ; commit 2 3 ; stat a 0 ; commit 0 1 ; stat a 0 ; open a 0 0")
+    out.append("create a 0 ; write 0 hello ; commit 0 3 ; create a 0 ; stat a 0 ; discard a 0 ; create a 0 ; create a 0 ; write 2 q ; commit 2 1 ; write 3 rr ; commit 3 2 ; stat a 0")
+    return out
+
+
 def gen(r, tier, sub):
     if sub == "C15":
+        for s in directed():
+            yield "mem FAIL 0 ; " + s
+            yield "file FAIL 0 ; " + s
         n = 250 if tier == "quick" else 4000
         for _ in range(n):
             s = seq(r)
